@@ -59,6 +59,12 @@ Theorem C01_witnesses_are_points : forall A B w, In w (witnesses A B) -> 0 < hw 
 Proof. exact witnesses_pos. Qed.
 Print Assumptions C01_witnesses_are_points.
 
+(* the per-instance certificate eps_ok ranges over paths that start at a sub-edge midpoint witness and end in a side witness *)
+Theorem C01_eps_certificate_paths : forall A B s sg m p, In (s, sg, m, p) (side_paths A B) ->
+  In (m, 1) (witnesses A B) /\ In (p, 2) (witnesses A B).
+Proof. exact side_paths_witnesses. Qed.
+Print Assumptions C01_eps_certificate_paths.
+
 (* what the driver evaluates: matrix and side certificate in one pass; one rule serves all when neither geometry has lines *)
 Theorem C01_driver_shortcuts : forall r A B,
   oracle_run r A B = (relate_oracle r A B, side_ok r A B) /\
@@ -107,6 +113,8 @@ Definition sqA : geom := GPoly [(0, 0); (12, 0); (12, 12); (0, 12); (0, 0)] [].
 Definition sqB : geom := GPoly [(6, 6); (18, 6); (18, 18); (6, 18); (6, 6)] [].
 Definition lnB : geom := GLine [(-6, 6); (6, 6); (6, 18)].
 Example ex_overlap : relate_oracle Mod2 sqA sqB = [2; 1; 2; 1; 0; 1; 2; 1; 2] /\ oracle_realizable Mod2 sqA sqB = true /\ side_ok Mod2 sqA sqB = true.
+Proof. vm_compute. auto. Qed.
+Example ex_eps : eps_ok sqA sqB = true /\ eps_ok lnB sqA = true /\ fragile_nodes sqA sqB = [].
 Proof. vm_compute. auto. Qed.
 Example ex_line_area : relate_oracle Mod2 lnB sqA = [1; 0; 1; -1; -1; 0; 2; 1; 2] /\ relate_oracle Mod2 sqA lnB = [1; -1; 2; 0; -1; 1; 1; 0; 2] /\
   spec_crosses (dim_real lnB) (dim_real sqA) (relate_oracle Mod2 lnB sqA) = true.
